@@ -34,7 +34,7 @@ func (o sop) String() string {
 	case "add":
 		return fmt.Sprintf("%s(%d,%d)", o.kind, o.tx, b2i(o.auto))
 	case "addmulti":
-		return fmt.Sprintf("%s(%d,%d)", o.kind, o.tx, 2*b2i(o.same))
+		return fmt.Sprintf("%s(%d,%d)", o.kind, o.tx, b2i(o.same))
 	case "compact":
 		return fmt.Sprintf("compact(%d,%d)", o.first, o.last)
 	}
